@@ -166,6 +166,58 @@ theorem writePages_bits (b : Bitfield) (f : File) (hf : f.size % Spec.pageBytes 
         exact File.getD_of_le _ _ (by simp only [File.size] at h1; omega)
       simp [h1, hz]
 
+/-- a torn page write (only the first `t` bytes of the page arrive): every bit the store then decodes to is
+    the bit it held before or the bit in memory -/
+theorem tornPage_bits (b : Bitfield) (g : File) (hg : g.size % Spec.pageBytes = 0) (p t i : Nat) :
+    (Bitfield.ofFile (g.write (p * Spec.pageBytes) ((b.pageBytes p).take t))).get i = (Bitfield.ofFile g).get i
+      ∨ (Bitfield.ofFile (g.write (p * Spec.pageBytes) ((b.pageBytes p).take t))).get i = b.get i := by
+  have hP : Spec.pageBytes = 4096 := rfl
+  have hlen : ((b.pageBytes p).take t).length = min t 4096 := by rw [List.length_take, pageBytes_length, hP]
+  have hsz : (g.write (p * Spec.pageBytes) ((b.pageBytes p).take t)).size = max g.size (p * Spec.pageBytes + min t 4096) := by
+    rw [File.size_write, hlen]
+  have hmod4 : g.size - g.size % 4 = g.size := by rw [hP] at hg; omega
+  rw [ofFile_get, ofFile_get, hmod4, File.byte_write, hlen, hsz]
+  by_cases hin : p * Spec.pageBytes ≤ i / 8 ∧ i / 8 < p * Spec.pageBytes + min t 4096
+  · simp only [hin, and_self, ite_true]
+    have hj : i / 8 - p * Spec.pageBytes < t := by omega
+    have hin' := hin
+    rw [hP] at hin'
+    have hj2 : i / 8 - p * Spec.pageBytes < Spec.pageBytes := by rw [hP]; omega
+    have hbyte : ((b.pageBytes p).take t).getD (i / 8 - p * Spec.pageBytes) 0 = bitsToByte b.bits (i / 8 * 8) := by
+      rw [List.getD_eq_getElem?_getD, List.getElem?_take, if_pos hj, ← List.getD_eq_getElem?_getD, pageBytes_getD b p _ hj2]
+      congr 2; omega
+    rw [hbyte]
+    have hbit := bitsToByte_bit b.bits (i / 8 * 8) (i % 8) (Nat.mod_lt _ (by decide))
+    have e : i / 8 * 8 + i % 8 = i := by omega
+    rw [e] at hbit
+    by_cases hlt : i < (max g.size (p * Spec.pageBytes + min t 4096) - max g.size (p * Spec.pageBytes + min t 4096) % 4) * 8
+    · right
+      simp only [hlt, decide_true, Bool.true_and]
+      simpa [Bitfield.get] using hbit
+    · left
+      have hge : ¬ i < g.size * 8 := by
+        intro hcon
+        apply hlt
+        have h1 : p * Spec.pageBytes < g.size := by omega
+        have h2 : p * Spec.pageBytes + 4096 ≤ g.size := by rw [hP] at hg h1 ⊢; omega
+        have h3 : max g.size (p * Spec.pageBytes + min t 4096) = g.size := by
+          apply Nat.max_eq_left; omega
+        rw [h3, hmod4]; exact hcon
+      simp [hlt, hge]
+  · left
+    simp only [hin, ite_false]
+    by_cases hk : i / 8 < g.size
+    · have h1 : i < g.size * 8 := by omega
+      have h2 : i < (max g.size (p * Spec.pageBytes + min t 4096) - max g.size (p * Spec.pageBytes + min t 4096) % 4) * 8 := by
+        have := Nat.le_max_left g.size (p * Spec.pageBytes + min t 4096)
+        rw [hP] at hg
+        omega
+      simp [h1, h2]
+    · have hz : g.byte (i / 8) = 0 := by
+        simp only [File.byte]
+        exact File.getD_of_le _ _ (by simp only [File.size] at hk; omega)
+      simp [hz]
+
 /-! ### dirty pages -/
 
 theorem rangeDiffers_true (bits : Array Bool) (v : Bool) : ∀ (n start i : Nat), start ≤ i → i < start + n →
